@@ -61,11 +61,12 @@ class FixedRandom(stubs.SymRandom):
   def randint(self, a, b): return (int(a) + int(b)) // 2
 
 
-def setup(chunk=None, symbolic_intervals=False):
+def setup(chunk=None, symbolic_intervals=False, fixed_exp=None):
   vtime.setup()
   e = Env()
   e.net = netm.Net(); e.net.install(); e.net.chunk = chunk
   vz.math = stubs.SymMath(); vz.float = stubs.sym_float
+  stubs.EXP_FIXED = fixed_exp
   vz.VarzReceiver.VARZ_DATA = defaultdict(lambda: defaultdict(int))
   heap_mod.random = stubs.SymRandom('heap'); base_mod.random = stubs.SymRandom('base')
   ap_mod.random = SymRandomNC('ap') if symbolic_intervals else FixedRandom('ap')
